@@ -58,13 +58,21 @@ E_GREEDY, E_MAXW, E_MES, E_MESIT, E_PHRAG, E_COMPL, E_INCR, E_POP, E_SWC, E_SAT,
 CALLS = ["greedy", "greedy_satprof", "maxwelfare", "mes", "mes_satprof", "mes_irr", "mes_iter", "phragmen",
          "phragmen_irr", "completion", "completion_irr", "increase", "increase_irr", "increase_phragmen",
          "popularity", "swc", "satprofile", "sat_calls", "stats", "jr", "priceable", "project_loss",
-         "eff_support", "eff_supports", "cohesive", "validate_price"]
+         "eff_support", "eff_supports", "cohesive", "validate_price", "greedy_analytics", "mes_analytics",
+         "mes_skipped", "mes_skipped_plain"]
 ENTRY = {"greedy": E_GREEDY, "greedy_satprof": E_GREEDY, "maxwelfare": E_MAXW, "mes": E_MES, "mes_satprof": E_MES,
          "mes_irr": E_MES, "mes_iter": E_MESIT, "phragmen": E_PHRAG, "phragmen_irr": E_PHRAG, "completion": E_COMPL,
          "completion_irr": E_COMPL, "increase": E_INCR, "increase_irr": E_INCR, "increase_phragmen": E_INCR,
          "popularity": E_POP, "swc": E_SWC, "satprofile": E_SAT, "sat_calls": E_SAT, "stats": E_RO, "jr": E_RO,
          "priceable": E_RO, "project_loss": E_LOSS, "eff_support": E_EFFS, "eff_supports": E_EFFSS,
-         "cohesive": E_RO, "validate_price": E_RO}
+         "cohesive": E_RO, "validate_price": E_RO, "greedy_analytics": E_GREEDY, "mes_analytics": E_MES,
+         "mes_skipped": E_MES, "mes_skipped_plain": E_MES}
+# how the shared initial allocation is built: a plain list, a BudgetAllocation without details, the outcome of an
+# earlier analytics=True run (its details object is then caller-owned state), or a BudgetAllocation with fresh
+# details of either kind
+INIT_KINDS = ["list", "list", "list", "ba_plain", "greedy_run", "greedy_run", "mes_run", "mes_run", "manual_greedy",
+              "manual_mes"]
+ANALYTICS_CALLS = ["greedy_analytics", "greedy_analytics", "mes_analytics", "mes_skipped", "mes_skipped_plain"]
 SOLVER_CALLS = {"priceable"}
 # keys a caller may put into a parameter dictionary (Equal Shares / greedy) resp. into Phragmen's
 PKEYS = ["initial_budget_allocation", "resoluteness", "tie_breaking", "analytics", "sat_profile"]
@@ -74,7 +82,7 @@ WRAPPER_CALLS = ["increase", "increase", "increase_irr", "increase_phragmen", "c
 
 
 def budget(tier):
-    return 600 if tier == "quick" else 6000
+    return 500 if tier == "quick" else 6000
 
 
 def gen(rng, i, tier):
@@ -129,6 +137,11 @@ def gen(rng, i, tier):
         pkeys = sorted(pkeys + ["initial_budget_allocation"])
     if i % 3 == 0:
         calls[rng.randrange(k)] = rng.choice(WRAPPER_CALLS)
+    init_kind = rng.choice(INIT_KINDS)
+    if init_kind != "list" and rng.random() < 0.7:
+        calls[rng.randrange(k)] = rng.choice(ANALYTICS_CALLS)
+        if k > 1 and rng.random() < 0.5:
+            calls[rng.randrange(k)] = rng.choice(ANALYTICS_CALLS)
     pinit = []
     c = Fraction(0)
     for p in rng.sample(range(m), min(m, rng.randrange(0, 3))):
@@ -141,6 +154,7 @@ def gen(rng, i, tier):
             "step": pb.qs(rng.choice([Fraction(1), Fraction(1, 2), B / 4])),
             "pkeys": pkeys, "plkeys": [keyset(PKEYS, 0.12), keyset(PKEYS, 0.12)], "ppkeys": keyset(PPKEYS),
             "pinit": sorted(pinit), "pres": rng.random() < 0.5, "panalytics": rng.random() < 0.5,
+            "init_kind": init_kind,
             "explicit_init": rng.random() < 0.5, "explicit_res": rng.choice([None, None, True, False]),
             "solver": any(c in SOLVER_CALLS for c in calls)}
 
@@ -237,6 +251,24 @@ def build(case):
     sat = _sat(case["sat"])
     satprof = prof.as_sat_profile(sat)
     init = [projs[j] for j in case["init"]]
+    ik = case.get("init_kind", "list")
+    if ik != "list":
+        from pabutools.election import Instance
+        from pabutools.rules import greedy_utilitarian_welfare
+        from pabutools.rules.greedywelfare.greedywelfare_details import GreedyWelfareAllocationDetails
+        from pabutools.rules.mes.mes_details import MESAllocationDetails
+
+        half = Instance(projs, budget_limit=pb.num(pb.F(case["budget"]) / 2))
+        if ik == "ba_plain":
+            init = BudgetAllocation(init)
+        elif ik == "greedy_run":      # first round of funding with half the budget, analytics requested
+            init = greedy_utilitarian_welfare(half, prof, sat_class=sat, analytics=True)
+        elif ik == "mes_run":
+            init = method_of_equal_shares(half, prof, sat_class=sat, analytics=True)
+        elif ik == "manual_greedy":
+            init = BudgetAllocation(init, details=GreedyWelfareAllocationDetails())
+        elif ik == "manual_mes":
+            init = BudgetAllocation(init, details=MESAllocationDetails([1 for _ in case["ballots"]]))
     from pabutools.tiebreaking import lexico_tie_breaking
 
     def mk(keys):
@@ -336,6 +368,21 @@ def do_call(name, o, case):
         return direct(method_of_equal_shares, params, initial_budget_allocation=init)
     if name == "mes_satprof":
         return method_of_equal_shares(inst, prof, sat_profile=satprof, initial_budget_allocation=init)
+    if name == "greedy_analytics":
+        r = greedy_utilitarian_welfare(inst, prof, sat_class=sat, initial_budget_allocation=init, analytics=True)
+        return [r, snapshot(r.details)]
+    if name == "mes_analytics":
+        r = method_of_equal_shares(inst, prof, sat_class=sat, initial_budget_allocation=init, analytics=True)
+        return [r, snapshot(r.details)]
+    if name in ("mes_skipped", "mes_skipped_plain"):
+        # skipped_project with analytics (effective support recorded in the rule's OWN details) and without (the
+        # allocation built by the rule then inherits the details object of the initial allocation by reference)
+        cand = [p for p in o["projs"] if p not in init and p.cost > 0 and any(p in b for b in prof)]
+        if not cand:
+            return None
+        r = method_of_equal_shares(inst, prof, sat_class=sat, initial_budget_allocation=init,
+                                   analytics=(name == "mes_skipped"), skipped_project=cand[0])
+        return [r, snapshot(r.details) if name == "mes_skipped" else None]
     if name == "mes_irr":
         return direct(method_of_equal_shares, params, initial_budget_allocation=init, resoluteness=False)
     if name == "mes_iter":
